@@ -218,6 +218,13 @@ func parseSnapshot(name string) (uint64, error) {
 }
 
 func (tst *tsTable) TakeFileSnapshot(dst string) (success bool, err error) {
+	// The core snapshot and the snapshots of the secondary indexes must belong
+	// to one publication: the introducer replaces them one after the other
+	// under the publication fence (commitSnapshotTransaction), and opening the
+	// copy drops every index part the core manifest does not name. Hold the
+	// fence while the core and every index pin and link their snapshots.
+	tst.snapshotPublicationMu.RLock()
+	defer tst.snapshotPublicationMu.RUnlock()
 	snapshot := tst.currentSnapshot()
 	if snapshot == nil {
 		return false, storage.ErrNoCurrentSnapshot
